@@ -78,7 +78,7 @@ def c39(c):
     if c.violations:
         return c.finish(rule="stopped after the first failing stage")
     # 3. spec -> code: random builder histories over keys with up to 6 members
-    beh = _simulate(c, "MCSig", "MCSig_sim.cfg", 4000 if thorough else 150, 16, "TLC -simulate MCSig_sim.cfg")
+    beh = _simulate(c, "MCSig", "MCSig_sim.cfg", 1200 if thorough else 150, 16, "TLC -simulate MCSig_sim.cfg")
     replay(beh, "TLC -simulate builder histories (keys up to 6 members, 8 slots)")
     if c.violations:
         return c.finish(rule="stopped after the first failing stage")
